@@ -77,7 +77,26 @@ LIMITERS = ["minmod", "vanalbada", "vanleer", "superbee"]
 KAPPAS = {"extrapol2": -1.0, "fromm": 0.0, "quick": 0.5, "extrapol3": 1.0 / 3.0, "centered": 1.0}
 
 
+# Object pooling (see core.Pooled): when on, model and reconstruction objects are created once per worker and shard and handed out again
+# for every later request with the same specification, the way a user reuses one scheme/model object in a loop over meshes and cases.
+POOL = {"on": False, "models": {}, "recons": {}}
+
+
+def pool_reset(on):
+    POOL["on"] = on
+    POOL["models"].clear()
+    POOL["recons"].clear()
+
+
 def recon(name):
+    if POOL["on"]:
+        if name not in POOL["recons"]:
+            POOL["recons"][name] = _recon(name)
+        return POOL["recons"][name]
+    return _recon(name)
+
+
+def _recon(name):
     """factory from a string: extrapol1 | extrapol2 | extrapol3 | centered | fromm | quick |
     extrapolk:<k> | muscl:<limiter>"""
     if name.startswith("extrapolk:"):
@@ -114,8 +133,17 @@ def stencil_width(name):
 # ---------------------------------------------------------------------------
 # models
 def make_model(spec):
+    if POOL["on"]:
+        k = repr(spec)
+        if k not in POOL["models"]:
+            POOL["models"][k] = _make_model(spec)
+        return POOL["models"][k]
+    return _make_model(spec)
+
+
+def _make_model(spec):
     """spec: ('convection', a) | ('burgers',) | ('shallowwater', g) | ('euler1d', gamma) |
-    ('nozzle', law, gamma) | ('euler2d', gamma); optional trailing dict(source=...)"""
+    ('nozzle', law, gamma) | ('euler2d', gamma)"""
     kind = spec[0]
     if kind == "convection":
         return convection.model(spec[1])
